@@ -684,7 +684,9 @@ func (k Keeper) WasmUpdateCollectorLookupTable(ctx sdk.Context, updateColBinding
 				Collector.BlockTime = ctx.BlockTime()
 				Collector.BlockHeight = 0
 			} else if Collector.LockerSavingRate.IsZero() {
-				// do nothing
+				// nothing accrues at a zero rate, but lockers touched while the rate was off carry their own timestamp:
+				// move every locker's accrual start to now so the switched-off period is not paid at the new rate
+				k.LockerIterateRewards(ctx, Collector.LockerSavingRate, Collector.BlockHeight, Collector.BlockTime.Unix(), updateColBinding.AppID, updateColBinding.AssetID, true)
 				Collector.BlockHeight = ctx.BlockHeight()
 				Collector.BlockTime = ctx.BlockTime()
 			} else if Collector.LockerSavingRate.GT(sdk.ZeroDec()) && updateColBinding.LSR.GT(sdk.ZeroDec()) {
